@@ -53,6 +53,12 @@ def o_over(x):
 
 
 @memento_function(cluster="c8", version="1")
+def q_same(x):
+    REC.calls.append(("q_same", x))
+    return KeyOverrideResult(payload(0), "ov/same")      # every call publishes the same bytes under the same key
+
+
+@memento_function(cluster="c8", version="1")
 def p_part(x):
     REC.calls.append(("p_part", x))
     return InMemoryPartition({"a": payload(x), "b": [x, "b"]})
@@ -87,13 +93,15 @@ def w_warm(x):
     return [x, "warm"]
 
 
-FNS = dict(w_warm=w_warm, a_arr=a_arr, p_a=p_a, p_b=p_b, f_scalar=f_scalar, g_same=g_same, h_other=h_other, e_exc=e_exc, n_null=n_null, o_over=o_over, p_part=p_part)
+FNS = dict(q_same=q_same, w_warm=w_warm, a_arr=a_arr, p_a=p_a, p_b=p_b, f_scalar=f_scalar, g_same=g_same, h_other=h_other, e_exc=e_exc, n_null=n_null, o_over=o_over, p_part=p_part)
 
 
 def expected(name, x):
     """what an un-memoized execution returns (canonical form)"""
     if name in ("f_scalar", "g_same", "o_over"):
         return ["bytes", payload(x).hex()[:40], len(payload(x))]
+    if name == "q_same":
+        return ["bytes", payload(0).hex()[:40], len(payload(0))]
     if name == "h_other":
         return ["list", [x, "other"]]
     if name == "a_arr":
